@@ -52,20 +52,21 @@ Section RecvLock.
     t_lock : option bool;                 (* holder of the receive lock *)
     t_c : C; t_eof : bool;                (* the endpoint: consumer, _eof_reached *)
     t_o : oracle;                         (* the transport *)
-    t_log : list (bool * rres P)          (* returned calls, most recent first *)
+    t_log : list (bool * rres P);         (* returned calls, most recent first *)
+    t_try : list bool                     (* threads whose recv_packet(timeout=0) timed out on the lock, most recent first *)
   }.
 
   Definition tget (s : tstate) (i : bool) : tpc := if i then t_b s else t_a s.
   Definition tset (s : tstate) (i : bool) (p : tpc) : tstate :=
     {| t_a := if i then t_a s else p; t_b := if i then p else t_b s; t_lock := t_lock s;
-       t_c := t_c s; t_eof := t_eof s; t_o := t_o s; t_log := t_log s |}.
+       t_c := t_c s; t_eof := t_eof s; t_o := t_o s; t_log := t_log s; t_try := t_try s |}.
   Definition tshared (s : tstate) (c : C) (eof : bool) (o : oracle) : tstate :=
-    {| t_a := t_a s; t_b := t_b s; t_lock := t_lock s; t_c := c; t_eof := eof; t_o := o; t_log := t_log s |}.
+    {| t_a := t_a s; t_b := t_b s; t_lock := t_lock s; t_c := c; t_eof := eof; t_o := o; t_log := t_log s; t_try := t_try s |}.
   Definition tlock (s : tstate) (l : option bool) : tstate :=
-    {| t_a := t_a s; t_b := t_b s; t_lock := l; t_c := t_c s; t_eof := t_eof s; t_o := t_o s; t_log := t_log s |}.
+    {| t_a := t_a s; t_b := t_b s; t_lock := l; t_c := t_c s; t_eof := t_eof s; t_o := t_o s; t_log := t_log s; t_try := t_try s |}.
   Definition tlogr (s : tstate) (i : bool) (r : rres P) : tstate :=
     {| t_a := t_a s; t_b := t_b s; t_lock := t_lock s; t_c := t_c s; t_eof := t_eof s; t_o := t_o s;
-       t_log := (i, r) :: t_log s |}.
+       t_log := (i, r) :: t_log s; t_try := t_try s |}.
 
   (* thread i (n calls left after this one) has just taken the lock: the consumer is drained first, then the latch *)
   Definition tenter_body (s : tstate) (i : bool) (n : nat) : tstate * bool (* returned? *) :=
@@ -100,6 +101,35 @@ Section RecvLock.
         end
     end.
 
+  (* the timed branch of lock_with_timeout: a thread that is not in a call makes an extra recv_packet(timeout=0) while
+     the other thread holds the receive lock: `lock.acquire(blocking=False)` fails and `timeout == 0` raises TimeoutError
+     before anything else is touched.  (With the lock free the label does nothing here: that call is an ordinary one.) *)
+  Definition ttry (s : tstate) (i : bool) : tstate :=
+    match tget s i, t_lock s with
+    | TIdle _, Some _ =>
+        {| t_a := t_a s; t_b := t_b s; t_lock := t_lock s; t_c := t_c s; t_eof := t_eof s; t_o := t_o s;
+           t_log := t_log s; t_try := i :: t_try s |}
+    | _, _ => s
+    end.
+
+  Inductive tlabel := LRun (i : bool) | LTry (i : bool).
+  Definition tstep_l (s : tstate) (l : tlabel) : tstate :=
+    match l with LRun i => tstep s i | LTry i => ttry s i end.
+
+  Fixpoint trun_l (s : tstate) (sch : list tlabel) : tstate :=
+    match sch with
+    | [] => s
+    | l :: sch' => trun_l (tstep_l s l) sch'
+    end.
+
+  Fixpoint trun_l_obs (s : tstate) (sch : list tlabel) : list (tpc * tpc) * tstate :=
+    match sch with
+    | [] => ([], s)
+    | l :: sch' =>
+        let s' := tstep_l s l in
+        let '(obs, s'') := trun_l_obs s' sch' in ((t_a s', t_b s') :: obs, s'')
+    end.
+
   Fixpoint trun (s : tstate) (sch : list bool) : tstate :=
     match sch with
     | [] => s
@@ -116,5 +146,5 @@ Section RecvLock.
     end.
 
   Definition tinit (c0 : C) (o : oracle) (na nb : nat) : tstate :=
-    {| t_a := TIdle na; t_b := TIdle nb; t_lock := None; t_c := c0; t_eof := false; t_o := o; t_log := [] |}.
+    {| t_a := TIdle na; t_b := TIdle nb; t_lock := None; t_c := c0; t_eof := false; t_o := o; t_log := []; t_try := [] |}.
 End RecvLock.
